@@ -158,6 +158,7 @@ class Path:
         self.loops = []
         self.depth = 0
         self.trycount = {}
+        self.nonnull = set()    # opaque values a member of which was read on this path
         self.fndefaults = {}    # nested function -> values of its defaults (evaluated at the `def`)
 
     # ------------------------------------------------------------------ helpers for rules
@@ -222,6 +223,8 @@ class Path:
         return ("post", t, n) if n else t
 
     def _getattr(self, base, name):
+        if base[0] in ("s", "attr", "idx", "ld", "call", "elem"):
+            self.nonnull.add(base)          # reading a member succeeded: the value is not None on the rest of this path
         o = self._st(base)
         if o is not None:
             if name in o.fields:
@@ -311,6 +314,8 @@ class Path:
             if x is not None:
                 if is_const(x):
                     return x[1] is None
+                if x in self.nonnull:
+                    return False
                 o = self.obj(x)
                 if o is not None:
                     if o.none_like is not None:
@@ -791,9 +796,11 @@ class Path:
                 o.closed = False
         mut = self.I.mutators.get(name)
         if mut is not None:
-            for i in mut:
-                if i < len(args) and args[i][0] in ("s", "elem", "idx", "attr"):
-                    self.epoch[args[i]] = self.epoch.get(args[i], 0) + 1
+            kwd = dict(kws)
+            for i in mut:               # positional index or keyword name of an argument the callee updates in place
+                a = (args[i] if i < len(args) else None) if isinstance(i, int) else kwd.get(i)
+                if a is not None and a[0] in ("s", "elem", "idx", "attr"):
+                    self.epoch[a] = self.epoch.get(a, 0) + 1
         return self.I.pin(self, t)
 
     def _method(self, recv, meth, args, kws, n):
